@@ -95,7 +95,7 @@ def signature(f):
     return hit or {}
 
 def run(ctx):
-    ok = ctx.lean(['AmcVerif.Props.C09'], extra_modules=['AmcVerif.Bridge.VecGlueBridge', 'AmcVerif.Bridge.VecHelpersBridge'])
+    ok = ctx.lean(['AmcVerif.Props.C09', 'AmcVerif.Props.C09b'], extra_modules=['AmcVerif.Bridge.VecGlueBridge', 'AmcVerif.Bridge.VecHelpersBridge'])
     n = 70 if ctx.tier == 'quick' else 600
     if not ok:
         n *= 2
